@@ -26,6 +26,9 @@ func (r *FnRun) simpleBranch(blk, pred, join *ssa.BasicBlock) bool {
 			return false
 		case ssa.CallInstruction:
 			if callee := x.Common().StaticCallee(); callee != nil {
+				if _, isLock := lockOps[fullName(callee)]; isLock {
+					return false
+				}
 				for _, n := range r.C.Inline {
 					if n == callee.Name() || n == fullName(callee) {
 						return false
